@@ -351,3 +351,37 @@ Proof.
   - destruct quiet; [|reflexivity]. cbn [negb orb].
     apply Forall2_all2. eapply Forall2_weaken; [|exact F]. cbn beta. intros a b [_ H]. apply H. apply Hq. reflexivity.
 Qed.
+
+(* ---------- shard groups overlapping the query range ---------- *)
+Open Scope Z_scope.
+
+(* no group that can hold a point of the range is left out (deleted groups excepted) *)
+Lemma overlap_complete_lemma tmin tmax gs g t :
+  In g gs -> sg_deleted g = false -> tmin <= t <= tmax -> can_hold g t ->
+  In g (groups_overlapping tmin tmax gs).
+Proof.
+  intros Hin Hd Ht [H1 H2]. unfold groups_overlapping. apply filter_In. split; [exact Hin|].
+  rewrite Hd. cbn [negb andb]. unfold overlaps. apply andb_true_iff.
+  split; [apply Z.leb_le | apply Z.ltb_lt]; lia.
+Qed.
+
+(* and nothing else is read: a selected group is live and can hold a point of the range *)
+Lemma overlap_sound_lemma tmin tmax gs g :
+  tmin <= tmax -> sg_start g < sg_end g -> In g (groups_overlapping tmin tmax gs) ->
+  In g gs /\ sg_deleted g = false /\ exists t, tmin <= t <= tmax /\ can_hold g t.
+Proof.
+  intros Hr Hne Hin. unfold groups_overlapping in Hin. apply filter_In in Hin. destruct Hin as [Hin Hf].
+  apply andb_true_iff in Hf. destruct Hf as [Hd Ho]. apply negb_true_iff in Hd.
+  unfold overlaps in Ho. apply andb_true_iff in Ho. destruct Ho as [H1 H2].
+  split; [exact Hin|]. split; [exact Hd|].
+  apply Z.leb_le in H1. apply Z.ltb_lt in H2.
+  exists (Z.max tmin (sg_start g)). unfold can_hold.
+  pose proof (Z.le_max_l tmin (sg_start g)). pose proof (Z.le_max_r tmin (sg_start g)).
+  destruct (Z.max_spec tmin (sg_start g)) as [[L E]|[L E]]; rewrite E; lia.
+Qed.
+
+Lemma view_of_groups_shards tmin tmax gs s :
+  In s (view_of_groups tmin tmax gs) <->
+  exists g, In g (groups_overlapping tmin tmax gs) /\ In s (sg_shards g).
+Proof. unfold view_of_groups. apply in_flat_map. Qed.
+Close Scope Z_scope.
